@@ -14,6 +14,9 @@ for sd in seeds:
     meta_p = os.path.join(ROOT, "seeded", sd, "meta.json")
     meta = json.load(open(meta_p))
     prop = meta["property"]
+    if "caught_by" in meta and os.environ.get("SEED_RESUME"):
+        print(sd, "already done:", "caught" if meta.get("caught") else "MISSED", flush=True)
+        continue
     wt = "/var/tmp/seedrun_%s_%d" % (sd, os.getpid())
     subprocess.run(["git", "-C", "/repo", "worktree", "add", "-q", "--detach", wt, "HEAD"], check=True)
     try:
@@ -24,7 +27,7 @@ for sd in seeds:
         os.makedirs(out_dir, exist_ok=True)
         results = {}
         for p in [prop] + [x for x in also if x != prop]:
-            env = dict(os.environ, VERIF_REPO=wt, VERIF_EVIDENCE_DIR=out_dir, VERIF_REPLAY_DIR=out_dir)
+            env = dict(os.environ, VERIF_REPO=wt, VERIF_EVIDENCE_DIR=out_dir, VERIF_REPLAY_DIR=out_dir, VERIF_NO_PLAYBACK=os.environ.get("VERIF_NO_PLAYBACK", "1"))
             t0 = time.time()
             pr = subprocess.run([os.path.join(ROOT, "check"), p, "--tier", os.environ.get("SEED_TIER", "quick")], capture_output=True, text=True, env=env)
             viol = re.findall(r"^VIOLATION property=(\S+) replay=\S+ obligation=(\S+)(.*)$", pr.stdout, re.M)
